@@ -240,7 +240,9 @@ class Resolver:
         if k == "un":
             return ("un", rv["op"], self.operand(rv["a"], at, depth))
         if k == "cast":
-            return ("cast", self.operand(rv["op"], at, depth), rv["ty"])
+            pl = op_place(rv["op"])
+            src_ty = self.fn.local_ty(pl["l"]) if pl is not None and is_plain_local(pl) else None
+            return ("cast", self.operand(rv["op"], at, depth), rv["ty"], src_ty)
         if k == "discr":
             return ("discr", self.place(rv["place"], at, depth), rv.get("adt"))
         if k == "repeat":
